@@ -8,6 +8,7 @@ require (
 	github.com/google/uuid v1.3.0
 	github.com/massnetorg/mass-core v0.0.0-20210816132538-be1c10e6c62a
 	github.com/shirou/gopsutil v3.21.5+incompatible
+	github.com/sirupsen/logrus v1.2.0
 	golang.org/x/crypto v0.0.0-20210322153248-0c34fe9e7dc2
 	massnet.org/mass v0.0.0
 )
@@ -28,7 +29,6 @@ require (
 	github.com/pkg/errors v0.8.1 // indirect
 	github.com/rifflock/lfshook v0.0.0-20180920164130-b9218ef580f5 // indirect
 	github.com/shopspring/decimal v1.2.0 // indirect
-	github.com/sirupsen/logrus v1.2.0 // indirect
 	github.com/syndtr/goleveldb v1.0.1-0.20210305035536-64b5b1c73954 // indirect
 	golang.org/x/net v0.0.0-20210226172049-e18ecbb05110 // indirect
 	golang.org/x/sys v0.0.0-20210420205809-ac73e9fd8988 // indirect
